@@ -6,6 +6,7 @@ import Rpki.Proofs.AsDerCodec
 import Rpki.Proofs.IpDerCodec
 import Rpki.Proofs.ResTextLemmas
 import Rpki.Proofs.ResTextV6
+import Rpki.Proofs.ResTextSets
 import Rpki.Proofs.ChainPrefix
 import Rpki.Proofs.ChainOps
 namespace Rpki.C03
@@ -200,6 +201,18 @@ address and read as a one-address range: the same set). -/
 theorem ipv4_text_roundtrip (ts : List ResText.TBlk) (h : ∀ t ∈ ts, ResText.V4Shaped t) :
     (ResText.parseIpItems true (ResText.fmtIp true ts)).map (·.map ResText.tblkBounds) =
       some (ts.map ResText.tblkBounds) := ResText.parseIpItems_fmt_v4 ts h
+
+
+/-- **IP sets.** The text form of every canonical IPv6 set, and of every canonical IPv4 set, parses
+back — items collected by `from_iter` — to the same set: prefixes with their length, ranges,
+single addresses, IPv4-mapped IPv6 blocks included. -/
+theorem ip_text_set_roundtrip (c : List Blk) (hc : Canon (2 ^ 128 - 1) c) :
+    (ResText.parseIpItems false (ResText.fmtIp false (c.map ResText.tagged))).map
+        (fun ts => fromIter (2 ^ 128 - 1) (ts.map ResText.tblkBounds)) = some c ∧
+    ((∀ b ∈ c, b.lo % 2 ^ 96 = 0 ∧ b.hi % 2 ^ 96 = 2 ^ 96 - 1) →
+      (ResText.parseIpItems true (ResText.fmtIp true (c.map ResText.tagged))).map
+        (fun ts => fromIter (2 ^ 128 - 1) (ts.map ResText.tblkBounds)) = some c) :=
+  ⟨ResText.ip6_text_set_roundtrip c hc, fun h4 => ResText.ip4_text_set_roundtrip c hc h4⟩
 
 example : ResText.parseV6 (ResText.fmtV6 (2 ^ 112 + 2 ^ 48 + 5)) = some (2 ^ 112 + 2 ^ 48 + 5) :=
   ResText.parseV6_fmtV6 _ (by decide)
